@@ -104,6 +104,15 @@ func init() {
 				}
 			}
 		}
+		// ambiguous sentences: a parenthesised group that holds nothing but another group is derivable through both
+		// alternatives of relationRecurse; the tree must be the one of the first alternative in grammar order (what the
+		// grammar interpreter builds and what every generated parser predicts) - a parser whose decision tables list the
+		// alternatives in another order accepts the same language and differs only here
+		for _, text := range deepDocs([]int{1, 2, 3}) {
+			c.R.Evaluations++
+			c.Dist("ambiguous_group_documents")
+			dslCorr(c, "nested-groups", text)
+		}
 		grammarSentences(c, c.Pick(1500, 20000))
 		c.Sample(map[string]any{"table": "parser-rules", "first": p.RuleNames[0], "count": len(p.RuleNames)})
 	}
